@@ -238,6 +238,17 @@ def confirm(replay, verbose=False):
                 for k, w, _ in v:
                     print(" ", k, "—", w)
             return {k for k, _, _ in v}
+        if replay["kind"] == "ep":
+            old_mc = mcx._worker_mc
+            mcx._worker_mc = mc
+            try:
+                v, _ = work_ep([replay["ops"]])
+            finally:
+                mcx._worker_mc = old_mc
+            if verbose:
+                for k, w, _ in v:
+                    print(" ", k, "—", w)
+            return {k for k, _, _ in v}
         if replay["kind"] == "sep":
             old_mc = mcx._worker_mc
             mcx._worker_mc = mc
@@ -435,6 +446,76 @@ def opname_sep(op):
 
 
 # ---------------------------------------------------------------------------------------------
+# speech-engine preference mini-family: with an engine selected, the number-valued preferences (rates, pitches, volume, pause factor)
+# reach the output through the rule variables and through direct reads; every sequence of writes, with speech taken after each write,
+# must give what a fresh session with the same preference values gives
+
+EP_EXPR = terms.doc(row(mi("A"), mo("+"), el("mfrac", mi("x"), mn("2")), mo("="), el("msup", mi("B"), mn("2"))))
+EP_OPS = [["pref", "MathRate", "50"], ["pref", "MathRate", "100"], ["pref", "CapitalLetters_Pitch", "30"], ["pref", "Pitch", "20"], ["pref", "Rate", "90"], ["pref", "Volume", "50"],
+          ["pref", "PauseFactor", "300"], ["pref", "BrailleNavHighlight", "Off"], ["pref", "CapitalLetters_Beep", "true"], ["pref", "Verbosity", "Terse"]]
+EP_ENGINES = ["SSML", "SAPI5"]
+
+
+def ep_histories(tier):
+    """[TTS=engine, set_mathml, speech] + every sequence of 1..n preference writes, speech after each"""
+    maxlen = 2 if tier == "quick" else 3
+    out = []
+    for eng in EP_ENGINES:
+        for n in range(1, maxlen + 1):
+            for seq in itertools.product(range(len(EP_OPS)), repeat=n):
+                if any(seq[i] == seq[i + 1] for i in range(n - 1)):
+                    continue
+                h = [["pref", "TTS", eng], ["mathml", EP_EXPR], ["speech"]]
+                for i in seq:
+                    h += [EP_OPS[i], ["speech"]]
+                out.append(h)
+    return out
+
+
+def ep_reference(h, upto):
+    """fresh-session route to the preference values in force after the first `upto` ops of h"""
+    last = {}
+    for op in h[:upto]:
+        if op[0] == "pref":
+            last[op[1]] = op[2]
+    return [["pref", k, v] for k, v in last.items()] + [["mathml", EP_EXPR], ["speech"]]
+
+
+def work_ep(hists):
+    mc = mcx.worker_mc()
+    _, got = mc.run_cases(SETUP, hists, fresh=True)
+    refs, where = [], []
+    for hi, h in enumerate(hists):
+        for k, op in enumerate(h):
+            if op == ["speech"] and k > 2:
+                refs.append(ep_reference(h, k))
+                where.append((hi, k))
+    uniq = {}
+    for r in refs:
+        uniq.setdefault(json.dumps(r), r)
+    keys = list(uniq)
+    _, rres = mc.run_cases(SETUP, [uniq[k] for k in keys], fresh=True)
+    rmap = {k: obs_norm(x[-1]) for k, x in zip(keys, rres)}
+    viol = []
+    for (hi, k), r in zip(where, refs):
+        h = hists[hi]
+        x, y = obs_norm(got[hi][k]), rmap[json.dumps(r)]
+        if x != y:
+            written = [op[1] for op in h[3:k] if op[0] == "pref"]
+            viol.append((f"C10|history|engine-prefs|{h[0][2]}|last-written:{written[-1]}|before:{'+'.join(written[:-1]) or '-'}",
+                         f"call history [{', '.join(opname_ep(o) for o in h[:k + 1])}]: speech is {short(x, 160)} but a fresh session with the same preference values gives {short(y, 160)}",
+                         {"kind": "ep", "ops": h}))
+            break
+    return viol, len(refs)
+
+
+def opname_ep(op):
+    if op[0] == "pref":
+        return f"{op[1]}={op[2]!r}"
+    return "set_mathml(E)" if op[0] == "mathml" else op[0]
+
+
+# ---------------------------------------------------------------------------------------------
 # Language=Auto / LanguageAuto mini-family (the language an AT announces while the user preference is "Auto")
 
 LA_OPS_QUICK = [["pref", "LanguageAuto", "es"], ["pref", "Language", "en"], ["pref", "Language", "Auto"]]
@@ -563,6 +644,8 @@ def _dispatch(job):
         return ("L",) + work_la(job[1])
     if job[0] == "P":
         return ("P",) + work_sep(job[1])
+    if job[0] == "E":
+        return ("E",) + work_ep(job[1])
     if job[0] == "S":
         return ("S",) + work_session(job[1:])
     if job[0] == "R":
@@ -772,6 +855,13 @@ def main(tier):
         run.merge_violations(viol)
         run.count("evaluations", n)
         transitions += n * 4
+    eh = ep_histories(tier)
+    run.count("engine_preference_histories", len(eh))
+    for out in mcx.pmap(_dispatch, [("E", eh[i:i + 12]) for i in range(0, len(eh), 12)]):
+        _, viol, n = out
+        run.merge_violations(viol)
+        run.count("evaluations", n)
+        transitions += n * 2
     lh = la_histories(tier)
     run.count("language_auto_histories", len(lh))
     for out in mcx.pmap(_dispatch, [("L", lh[i:i + 60]) for i in range(0, len(lh), 60)]):
@@ -834,6 +924,7 @@ def main(tier):
              f"against a fresh session with the final separator values; (b'') every sequence up to length 7 over (LanguageAuto=es, Language=en, Language=Auto) "
              + ("+ LanguageAuto=sv, Language=es " if tier == "thorough" else "") + "followed by set_mathml and speech, against the canonical switch-free way into the same model state; (b3) A -> B sessions over the corpus derived from the definitions files for "
              + ("8 chosen" if tier == "quick" else "all") + " ordered pairs of languages / braille codes (the family is shared with C15); (b4) three expressions whose intent cannot be honoured: every sequence up to length " + ("3" if tier == "quick" else "4") + " over (IntentErrorRecovery=Error, =IgnoreIntent, speech, braille, overview, ZoomIn) followed by a getter, against [final preference, set_mathml, getter] in a fresh session; (c) {len(two)} two-thread and {len(three)} three-thread script tuples, ALL interleavings at API-call granularity under the controlled scheduler. "
+             f"(b5) with SSML / SAPI5 selected: every sequence of up to {2 if tier == 'quick' else 3} writes over 10 engine-related preference values (MathRate, pitches, rate, volume, pause factor, two unrelated ones), speech after every write, against a fresh session with the same values; "
              "states = distinct reference-model states (preferences, expression, navigation commands since set, observation) reached; transitions = API calls executed; "
              "distinct_nontrivial = distinct (model state, result) pairs",
         coverage_extra={"states": len(states), "transitions": transitions, "traces_validated_against_impl": len(sessions) + nsched,
